@@ -30,6 +30,8 @@ def run(ctx):
     g = c22.Gen(T)
     c22.fill_prec(g, T)
     cases = [c for c in c22.build_cases(ctx, T, g) if c[0] == "E"]
+    if ctx.quick:   # C22 runs the whole enumeration; here: every tree of depth <= 2 and every third deeper one
+        cases = [c for i, c in enumerate(cases) if c22.depth(c[1]) <= 2 or i % 3 == 0]
     pin = "".join("P\tE\t%s\n" % s for c, n, s in cases)
     rc1, o1 = ctx.run([impl], input=pin)
     rc2, o2 = ctx.run([model], input=pin)
